@@ -42,7 +42,7 @@ class Slot:
 class Tab:
     """slots + column names + whether positions are meaningful."""
 
-    __slots__ = ("slots", "cols", "ordered", "det", "dropped")
+    __slots__ = ("slots", "cols", "ordered", "det", "dropped", "sliced")
 
     def __init__(self, slots, cols, ordered=True, det=True, dropped=False):
         self.slots = list(slots)
@@ -52,6 +52,7 @@ class Tab:
         # (total up to identical rows); `dropped` = a projection removed a column since the sort.
         self.det = det
         self.dropped = dropped
+        self.sliced = False  # a slice was applied since the sort (later non-total sorts cannot merge with it)
 
     def count(self):
         return zsum(b2i(s.p) for s in self.slots)
